@@ -3,7 +3,8 @@
   Property theorems only.  Model: `Koreo.ResourceFn.decide` (lean/Koreo/ResourceFn.lean), the
   `if` cascade of `reconcile_krm_resource` behind the precondition gate of
   `reconcile_resource_function`, as a table over
-      2^5 flags × 3 update policies × 2 precondition results × 4 cluster situations.
+      2^5 flags × 3 update policies × 2 precondition results × {create.overlay written?} × {plural given?}
+      × 5 cluster situations (absent, three present ones, absent-at-load-but-409-on-create).
   The quantifier of every theorem below is that finite table, so `cases`/`decide` is a proof.
   `Koreo/Gen/RfDefaults.lean` is regenerated from the source on every run.
 -/
@@ -75,14 +76,26 @@ theorem defaults_match_source :
 /-- a spec that omits every flag is the default management mode: owning, namespaced, may create, patches -/
 theorem omitted_flags_cfg (pp : Bool) :
     ({} : FlagSpec).cfg pp =
-      ⟨false, true, true, true, false, .patch, pp⟩ := rfl
+      ⟨false, true, true, true, false, .patch, pp, false, true⟩ := rfl
+
+/-- whether `create.overlay` is written and whether `plural` is given never changes what is
+    decided (the first must not re-enable a disabled create; the second only adds the discovery
+    call of `discovers`) -/
+theorem decide_ignores (ro ow ns ce de : Bool) (pol : Policy) (pp co pg : Bool) (s : Situation) :
+    ResourceFn.decide ⟨ro, ow, ns, ce, de, pol, pp, co, pg⟩ s =
+      ResourceFn.decide ⟨ro, ow, ns, ce, de, pol, pp, false, true⟩ s := rfl
+
+theorem create_overlay_and_plural_irrelevant (c : Cfg) (co pg : Bool) (s : Situation) :
+    ResourceFn.decide { c with createOverlay := co, pluralGiven := pg } s = ResourceFn.decide c s := rfl
 
 /-! ## the clauses of the property, each for the whole table -/
 
 /-- a readonly function never creates or patches -/
 theorem readonly_never_creates_or_patches (c : Cfg) (s : Situation) (h : c.readonly = true) :
     (ResourceFn.decide c s).1 ≠ .create ∧ (ResourceFn.decide c s).1 ≠ .patch := by
-  obtain ⟨ro, ow, ns, ce, de, pol, pp⟩ := c
+  obtain ⟨ro, ow, ns, ce, de, pol, pp, co, pg⟩ := c
+  try dsimp only at *
+  simp only [decide_ignores ro ow ns ce de pol pp co pg]
   subst h
   cases ow <;> cases ns <;> cases ce <;> cases de <;> cases pol <;> cases pp <;> cases s <;> decide
 
@@ -90,14 +103,18 @@ theorem readonly_never_creates_or_patches (c : Cfg) (s : Situation) (h : c.reado
 theorem readonly_without_delete_mode_never_mutates (c : Cfg) (s : Situation)
     (h : c.readonly = true) (hd : c.deleteIfExists = false) :
     (ResourceFn.decide c s).1 = .none ∨ (ResourceFn.decide c s).1 = .noApiAtAll := by
-  obtain ⟨ro, ow, ns, ce, de, pol, pp⟩ := c
+  obtain ⟨ro, ow, ns, ce, de, pol, pp, co, pg⟩ := c
+  try dsimp only at *
+  simp only [decide_ignores ro ow ns ce de pol pp co pg]
   subst h; subst hd
   cases ow <;> cases ns <;> cases ce <;> cases pol <;> cases pp <;> cases s <;> decide
 
 /-- with create disabled a function never creates -/
 theorem create_disabled_never_creates (c : Cfg) (s : Situation) (h : c.createEnabled = false) :
     (ResourceFn.decide c s).1 ≠ .create := by
-  obtain ⟨ro, ow, ns, ce, de, pol, pp⟩ := c
+  obtain ⟨ro, ow, ns, ce, de, pol, pp, co, pg⟩ := c
+  try dsimp only at *
+  simp only [decide_ignores ro ow ns ce de pol pp co pg]
   subst h
   cases ro <;> cases ow <;> cases ns <;> cases de <;> cases pol <;> cases pp <;> cases s <;> decide
 
@@ -106,7 +123,9 @@ theorem create_disabled_never_creates (c : Cfg) (s : Situation) (h : c.createEna
 theorem never_policy_no_patch_no_delete (c : Cfg) (s : Situation)
     (h : c.policy = .never) (hd : c.deleteIfExists = false) :
     (ResourceFn.decide c s).1 ≠ .patch ∧ (ResourceFn.decide c s).1 ≠ .delete := by
-  obtain ⟨ro, ow, ns, ce, de, pol, pp⟩ := c
+  obtain ⟨ro, ow, ns, ce, de, pol, pp, co, pg⟩ := c
+  try dsimp only at *
+  simp only [decide_ignores ro ow ns ce de pol pp co pg]
   subst h; subst hd
   cases ro <;> cases ow <;> cases ns <;> cases ce <;> cases pp <;> cases s <;> decide
 
@@ -114,14 +133,18 @@ theorem never_policy_no_patch_no_delete (c : Cfg) (s : Situation)
 theorem patch_policy_never_deletes (c : Cfg) (s : Situation)
     (h : c.policy = .patch) (hd : c.deleteIfExists = false) :
     (ResourceFn.decide c s).1 ≠ .delete := by
-  obtain ⟨ro, ow, ns, ce, de, pol, pp⟩ := c
+  obtain ⟨ro, ow, ns, ce, de, pol, pp, co, pg⟩ := c
+  try dsimp only at *
+  simp only [decide_ignores ro ow ns ce de pol pp co pg]
   subst h; subst hd
   cases ro <;> cases ow <;> cases ns <;> cases ce <;> cases pp <;> cases s <;> decide
 
 /-- with policy `recreate` it never patches — in any mode -/
 theorem recreate_policy_never_patches (c : Cfg) (s : Situation) (h : c.policy = .recreate) :
     (ResourceFn.decide c s).1 ≠ .patch := by
-  obtain ⟨ro, ow, ns, ce, de, pol, pp⟩ := c
+  obtain ⟨ro, ow, ns, ce, de, pol, pp, co, pg⟩ := c
+  try dsimp only at *
+  simp only [decide_ignores ro ow ns ce de pol pp co pg]
   subst h
   cases ro <;> cases ow <;> cases ns <;> cases ce <;> cases de <;> cases pp <;> cases s <;> decide
 
@@ -129,8 +152,10 @@ theorem recreate_policy_never_patches (c : Cfg) (s : Situation) (h : c.policy = 
     exactly when the object is there (and the preconditions passed) -/
 theorem delete_if_exists_only_deletes (c : Cfg) (s : Situation) (h : c.deleteIfExists = true) :
     (ResourceFn.decide c s).1 ≠ .create ∧ (ResourceFn.decide c s).1 ≠ .patch ∧
-    ((ResourceFn.decide c s).1 = .delete ↔ (c.precondPass = true ∧ s ≠ .absent)) := by
-  obtain ⟨ro, ow, ns, ce, de, pol, pp⟩ := c
+    ((ResourceFn.decide c s).1 = .delete ↔ (c.precondPass = true ∧ s.isAbsent = false)) := by
+  obtain ⟨ro, ow, ns, ce, de, pol, pp, co, pg⟩ := c
+  try dsimp only at *
+  simp only [decide_ignores ro ow ns ce de pol pp co pg]
   subst h
   cases ro <;> cases ow <;> cases ns <;> cases ce <;> cases pol <;> cases pp <;> cases s <;> decide
 
@@ -138,8 +163,10 @@ theorem delete_if_exists_only_deletes (c : Cfg) (s : Situation) (h : c.deleteIfE
     object that needs an update -/
 theorem delete_only_by_mode_or_recreate (c : Cfg) (s : Situation)
     (h : (ResourceFn.decide c s).1 = .delete) :
-    s ≠ .absent ∧ (c.deleteIfExists = true ∨ (c.policy = .recreate ∧ c.readonly = false ∧ s ≠ .presentMatching)) := by
-  obtain ⟨ro, ow, ns, ce, de, pol, pp⟩ := c
+    s.isAbsent = false ∧ (c.deleteIfExists = true ∨ (c.policy = .recreate ∧ c.readonly = false ∧ s ≠ .presentMatching)) := by
+  obtain ⟨ro, ow, ns, ce, de, pol, pp, co, pg⟩ := c
+  try dsimp only at *
+  simp only [decide_ignores ro ow ns ce de pol pp co pg] at h
   revert h
   cases ro <;> cases ow <;> cases ns <;> cases ce <;> cases de <;> cases pol <;> cases pp <;> cases s <;> decide
 
@@ -148,31 +175,56 @@ theorem delete_only_by_mode_or_recreate (c : Cfg) (s : Situation)
     object is the goal: `delete_mode_absent_is_done`.) -/
 theorem absent_unmanageable_retries_without_mutation (c : Cfg)
     (hp : c.precondPass = true) (hd : c.deleteIfExists = false)
-    (h : c.readonly = true ∨ c.createEnabled = false) :
-    ResourceFn.decide c .absent = (.none, .retry) := by
-  obtain ⟨ro, ow, ns, ce, de, pol, pp⟩ := c
+    (h : c.readonly = true ∨ c.createEnabled = false) (s : Situation) (hs : s.isAbsent = true) :
+    ResourceFn.decide c s = (.none, .retry) := by
+  obtain ⟨ro, ow, ns, ce, de, pol, pp, co, pg⟩ := c
+  try dsimp only at *
+  simp only [decide_ignores ro ow ns ce de pol pp co pg]
   subst hp; subst hd
-  revert h
-  cases ro <;> cases ow <;> cases ns <;> cases ce <;> cases pol <;> decide
+  revert h hs
+  cases ro <;> cases ow <;> cases ns <;> cases ce <;> cases pol <;> cases s <;> decide
 
-theorem delete_mode_absent_is_done (c : Cfg) (hp : c.precondPass = true) (hd : c.deleteIfExists = true) :
-    ResourceFn.decide c .absent = (.none, .ok) := by
-  obtain ⟨ro, ow, ns, ce, de, pol, pp⟩ := c
+theorem delete_mode_absent_is_done (c : Cfg) (hp : c.precondPass = true) (hd : c.deleteIfExists = true)
+    (s : Situation) (hs : s.isAbsent = true) :
+    ResourceFn.decide c s = (.none, .ok) := by
+  obtain ⟨ro, ow, ns, ce, de, pol, pp, co, pg⟩ := c
+  try dsimp only at *
+  simp only [decide_ignores ro ow ns ce de pol pp co pg]
   subst hp; subst hd
-  cases ro <;> cases ow <;> cases ns <;> cases ce <;> cases pol <;> decide
+  revert hs
+  cases ro <;> cases ow <;> cases ns <;> cases ce <;> cases pol <;> cases s <;> decide
+
+/-- a lost creation race (absent at the load, 409 on the POST) is decided exactly like an absent
+    object: the one create attempt and Retry — never a follow-up patch or delete, whatever the policy -/
+theorem conflict_is_a_create_attempt_only (c : Cfg) :
+    ResourceFn.decide c .absentConflict = ResourceFn.decide c .absent := by
+  obtain ⟨ro, ow, ns, ce, de, pol, pp, co, pg⟩ := c
+  try dsimp only at *
+  simp only [decide_ignores ro ow ns ce de pol pp co pg]
+  cases ro <;> cases ow <;> cases ns <;> cases ce <;> cases de <;> cases pol <;> cases pp <;> decide
 
 /-- preconditions do not pass: no API call at all (not even the load), whatever the mode and
     whatever is in the cluster; the outcome is the precondition's own -/
 theorem precond_fail_no_api (c : Cfg) (s : Situation) (h : c.precondPass = false) :
-    ResourceFn.decide c s = (.noApiAtAll, .precond) := by
-  obtain ⟨ro, ow, ns, ce, de, pol, pp⟩ := c
+    ResourceFn.decide c s = (.noApiAtAll, .precond) ∧ discovers c = false := by
+  obtain ⟨ro, ow, ns, ce, de, pol, pp, co, pg⟩ := c
+  try dsimp only at *
   subst h
-  rfl
+  exact ⟨rfl, rfl⟩
+
+/-- the kind-to-plural discovery call is made exactly when the plural is not given and the
+    preconditions passed (cold cache) — in every mode, in front of the load -/
+theorem discovery_iff (c : Cfg) : discovers c = true ↔ (c.precondPass = true ∧ c.pluralGiven = false) := by
+  obtain ⟨ro, ow, ns, ce, de, pol, pp, co, pg⟩ := c
+  try dsimp only at *
+  cases pp <;> cases pg <;> simp [discovers]
 
 /-- … and conversely the API is left alone only then -/
 theorem no_api_iff_precond_fail (c : Cfg) (s : Situation) :
     (ResourceFn.decide c s).1 = .noApiAtAll ↔ c.precondPass = false := by
-  obtain ⟨ro, ow, ns, ce, de, pol, pp⟩ := c
+  obtain ⟨ro, ow, ns, ce, de, pol, pp, co, pg⟩ := c
+  try dsimp only at *
+  simp only [decide_ignores ro ow ns ce de pol pp co pg]
   cases ro <;> cases ow <;> cases ns <;> cases ce <;> cases de <;> cases pol <;> cases pp <;> cases s <;> decide
 
 /-- every mutation is reported as Retry (the caller comes back to look at the result); a run
@@ -180,14 +232,18 @@ theorem no_api_iff_precond_fail (c : Cfg) (s : Situation) :
 theorem mutation_reports_retry (c : Cfg) (s : Situation) :
     ((ResourceFn.decide c s).1 = .create ∨ (ResourceFn.decide c s).1 = .patch ∨ (ResourceFn.decide c s).1 = .delete) →
     (ResourceFn.decide c s).2 = .retry := by
-  obtain ⟨ro, ow, ns, ce, de, pol, pp⟩ := c
+  obtain ⟨ro, ow, ns, ce, de, pol, pp, co, pg⟩ := c
+  try dsimp only at *
+  simp only [decide_ignores ro ow ns ce de pol pp co pg]
   cases ro <;> cases ow <;> cases ns <;> cases ce <;> cases de <;> cases pol <;> cases pp <;> cases s <;> decide
 
 /-- a create happens exactly in the one cell family that allows it -/
 theorem create_iff (c : Cfg) (s : Situation) :
     (ResourceFn.decide c s).1 = .create ↔
-      (c.precondPass = true ∧ c.deleteIfExists = false ∧ c.readonly = false ∧ c.createEnabled = true ∧ s = .absent) := by
-  obtain ⟨ro, ow, ns, ce, de, pol, pp⟩ := c
+      (c.precondPass = true ∧ c.deleteIfExists = false ∧ c.readonly = false ∧ c.createEnabled = true ∧ s.isAbsent = true) := by
+  obtain ⟨ro, ow, ns, ce, de, pol, pp, co, pg⟩ := c
+  try dsimp only at *
+  simp only [decide_ignores ro ow ns ce de pol pp co pg]
   cases ro <;> cases ow <;> cases ns <;> cases ce <;> cases de <;> cases pol <;> cases pp <;> cases s <;> decide
 
 /-- a patch happens exactly when a managed (not readonly, not delete-mode) present object is
@@ -196,7 +252,9 @@ theorem patch_iff (c : Cfg) (s : Situation) :
     (ResourceFn.decide c s).1 = .patch ↔
       (c.precondPass = true ∧ c.deleteIfExists = false ∧ c.readonly = false ∧ c.policy = .patch ∧
         (s = .presentDrifted ∨ (s = .presentNoOwnerRef ∧ c.owned = true ∧ c.namespaced = true))) := by
-  obtain ⟨ro, ow, ns, ce, de, pol, pp⟩ := c
+  obtain ⟨ro, ow, ns, ce, de, pol, pp, co, pg⟩ := c
+  try dsimp only at *
+  simp only [decide_ignores ro ow ns ce de pol pp co pg]
   cases ro <;> cases ow <;> cases ns <;> cases ce <;> cases de <;> cases pol <;> cases pp <;> cases s <;> decide
 
 /-! ## the payload pipeline follows the table -/
@@ -223,12 +281,18 @@ example : ResourceFn.decide (({} : FlagSpec).cfg true) .absent = (.create, .retr
 
 /-- the hypotheses of the clause theorems are met by cells that do something -/
 example : ∃ c s, c.readonly = true ∧ c.deleteIfExists = true ∧ (ResourceFn.decide c s).1 = .delete :=
-  ⟨⟨true, true, true, true, true, .patch, true⟩, .presentMatching, rfl, rfl, by decide⟩
+  ⟨⟨true, true, true, true, true, .patch, true, false, true⟩, .presentMatching, rfl, rfl, by decide⟩
 
 example : ∃ c, c.policy = .recreate ∧ (ResourceFn.decide c .presentDrifted) = (.delete, .retry) :=
-  ⟨⟨false, true, true, true, false, .recreate, true⟩, rfl, by decide⟩
+  ⟨⟨false, true, true, true, false, .recreate, true, false, true⟩, rfl, by decide⟩
+
+/-- a disabled create stays disabled when a create.overlay is written; a lost race under policy
+    `never` is one create attempt -/
+example : ResourceFn.decide ⟨false, true, true, false, false, .patch, true, true, true⟩ .absent = (.none, .retry) ∧
+    ResourceFn.decide ⟨false, true, true, true, false, .never, true, false, true⟩ .absentConflict = (.create, .retry) ∧
+    discovers ⟨false, true, true, true, false, .patch, true, false, false⟩ = true := by decide
 
 example : ∃ c, c.policy = .never ∧ c.deleteIfExists = false ∧ (ResourceFn.decide c .presentDrifted) = (.none, .ok) :=
-  ⟨⟨false, true, true, true, false, .never, true⟩, rfl, rfl, by decide⟩
+  ⟨⟨false, true, true, true, false, .never, true, false, true⟩, rfl, rfl, by decide⟩
 
 end Koreo.C07
